@@ -184,8 +184,8 @@ func (e *Engine) evCall(c *ast.CallExpr, st *State) []Value {
 					}
 					e.nfresh++
 					k := fmt.Sprintf("k!w%d", e.nfresh)
-					return []Value{{fmt.Sprintf("(forall ((%s Int)) (=> (not (= %s %s)) (and (= (select %s %s) (select %s %s)) (= (select %s %s) (select %s %s)))))",
-						k, k, key, hf, k, hf0, k, he, k, he0, k), types.Typ[types.Bool]}}
+					return []Value{{fmt.Sprintf("(forall ((%s Int)) (! (=> (not (= %s %s)) (and (= (select %s %s) (select %s %s)) (= (select %s %s) (select %s %s)))) :pattern ((select %s %s)) :pattern ((select %s %s))))",
+						k, k, key, hf, k, hf0, k, he, k, he0, k, hf, k, he, k), types.Typ[types.Bool]}}
 				}
 				if id.Name == "wfailed" && e.infallibleWriter(w) {
 					return []Value{{"false", types.Typ[types.Bool]}}
@@ -201,6 +201,30 @@ func (e *Engine) evCall(c *ast.CallExpr, st *State) []Value {
 					e.declareWriterTheory()
 					h := e.heapGet(st, "W_out", "(Array Int BSeq)")
 					return []Value{{sx("select", h, key), e.typeOf(c)}}
+				}
+			}
+		case "cat", "sub", "lit", "eps":
+			// byte sequences (abstract sort BSeq): concatenation, the bytes s[lo:hi], the bytes of a string, the empty sequence
+			if e.isSpecHelper(id) {
+				e.declareWriterTheory()
+				rt := e.typeOf(c)
+				switch id.Name {
+				case "cat":
+					a := e.ev(c.Args[0], st)
+					b := e.ev(c.Args[1], st)
+					return []Value{{sx("cat", a.T, b.T), rt}}
+				case "sub":
+					s := e.ev(c.Args[0], st)
+					lo := e.ev(c.Args[1], st)
+					hi := e.ev(c.Args[2], st)
+					arr, off, _ := e.bytesOf(st, s)
+					return []Value{{sx("bseq", arr, e.add(off, lo.T), e.add(off, hi.T)), rt}}
+				case "lit":
+					s := e.ev(c.Args[0], st)
+					arr, off, ln := e.bytesOf(st, s)
+					return []Value{{sx("bseq", arr, off, e.add(off, ln)), rt}}
+				default:
+					return []Value{{"eps", rt}}
 				}
 			}
 		case "lastcb":
@@ -609,6 +633,9 @@ func (e *Engine) trackKey(name string, i int) *synth {
 
 func (e *Engine) callStatic0(c *ast.CallExpr, fn *types.Func, sig *types.Signature, recv *Value, args []Value, st *State) []Value {
 	full := fn.FullName()
+	if fd, fpk := e.foldFor(fn); fd != nil && len(args) == 3 {
+		return []Value{e.foldCall(fd, fpk, fn, args, sig.Results().At(0).Type())}
+	}
 	if res, ok := e.stdStub(full, c, recv, args, sig, st); ok {
 		return res
 	}
